@@ -309,14 +309,14 @@ def run(run):
     run.counters["depth2_requests_small_family"] = len(SY)
     pairs = [[list(p), list(r)] for p in R2 for r in R2]
     pairs += [[list(p), list(r)] for p in SY for r in SY]
-    bridge = R2 if thorough else [next(r for r in R2 if r[0] == t) for t in gen.TARGETS]
+    bridge = select_subset(fa, shipped, 40, run.seed) if thorough else [next(r for r in R2 if r[0] == t) for t in gen.TARGETS]
     pairs += [[list(p), list(r)] for p in bridge for r in SY] + [[list(p), list(r)] for p in SY for r in bridge]
     nsh = 256
     tasks = [dict(hists=pairs[i::nsh], table=table) for i in range(nsh)]
     run.map(MOD, "w_histories", tasks)
     trans = len(pairs) * 2
     if thorough:
-        R3 = select_subset(fa, shipped, 24, run.seed) + [r for r in SY if r[1] in ("syn:syn_blend", "syn:syn_muladd")][:12]
+        R3 = select_subset(fa, shipped, 20, run.seed) + [r for r in SY if r[1] in ("syn:syn_blend", "syn:syn_muladd")][:6]
         triples = [[list(a), list(b), list(c)] for a in R3 for b in R3 for c in R3]
         run.map(MOD, "w_histories", [dict(hists=triples[i::nsh], table=table) for i in range(nsh)])
         trans += len(triples) * 3
@@ -360,7 +360,7 @@ def run(run):
     run.coverage_extra["hash_seeds"] = seeds
     run.rule = (
         f"{len(reqs)} requests ({len(shipped)} from the five trace_arguments tables of results/update.py, {len(extra)} more: lax table, the six tools/generate_apmath_lax.py entries, four synthetic definitions x six targets); pristine table from forked children of an import-only zygote; all ordered pairs over {len(R2)} requests "
-        + ("(all table requests); all triples over 36; " if thorough else "(subset covering every (target, function)); ") + f"all ordered pairs over the {len(SY)} small-graph requests and between them and {len(bridge)} table requests; "
+        + ("(all table requests); all triples over 26; " if thorough else "(subset covering every (target, function)); ") + f"all ordered pairs over the {len(SY)} small-graph requests and between them and {len(bridge)} table requests; "
         + f"{nw} long walks covering an Eulerian circuit of the complete request digraph ({len(seq)} generations); full catalogue under {len(seeds)} hash seeds in both orders; "
         f"all sequences of length 2..{4 if thorough else 3} of {len(gen.REUSE_FUNCS)} same-signature definitions on ONE Context per target (text equal to the fresh-Context text up to renaming of generated names); "
         "all ordered pairs of complex numpy/python requests on Contexts that share one user parameters dict (text equal to the text with a fresh copy); user definitions re-registered between requests; "
